@@ -15,6 +15,9 @@ import os, re, hashlib
 from rsx import lex, parse_items, match_close
 
 
+UNSPECIFIED_ADAPTER = re.compile(r"\.(iter|iter_mut|into_iter|chars|keys|values|bytes|lines|split_whitespace)\(\)\s*\.\s*(any|all|find|find_map|position|map|filter|filter_map|fold|count|sum|max|min|last|nth|skip_while|take_while|flat_map|for_each)\(")
+
+
 class GenError(Exception):
     """Lost item / anchor / unsupported shape: the check is UNDECIDED (exit 2), never a violation."""
 
@@ -447,6 +450,13 @@ class Gen:
         origins.append(cur)
         body = "".join(t for t, _ in pieces)
         body2 = self._rewrite(body, rules)
+        if mode == "prove":
+            # Verus accepts closure-taking iterator adapters but leaves their result unspecified: a body that still holds one
+            # after the rewrite rules cannot be decided - neither a pass nor a failure would mean anything
+            code_only = "\n".join(l for l in body2.split("\n") if not re.match(r"\s*(//|proof \{|assert|let ghost|invariant|requires|ensures)", l))
+            m = UNSPECIFIED_ADAPTER.search(code_only)
+            if m:
+                raise GenError(f"{key}: unsupported construct `{m.group(0)}...)`: an iterator adapter over a closure, whose result the verifier leaves unspecified")
         if body2.count("\n") != body.count("\n"):
             origins = origins + [None] * (body2.count("\n") - body.count("\n"))
         if not body2.endswith("\n"):
